@@ -122,6 +122,15 @@ func C05(t *rapid.T, big bool) *world.Scenario {
 		if Pct(t, lbl+"-upd", 50) {
 			c.Header = append(c.Header, H("X-Multi", "z"), H("X-New", "n$S"), H("Content-Length", "999"), H("Keep-Alive", "hop$S;"))
 		}
+		if Pct(t, lbl+"-conn304", 25) {
+			// the 304 travelled over a connection of its own: what its Connection field names is
+			// hop-by-hop on that hop only, and says nothing about the stored response's fields
+			cv := Pick(t, lbl+"-conn304v", "X-Hop", "x-multi, X-Hop", "X-Other-Hop, close", "Content-Type, Set-Cookie", "X-Obs")
+			c.Header = append(c.Header, H("Connection", cv))
+			if strings.Contains(cv, "X-Hop") && Pct(t, lbl+"-conn304f", 50) {
+				c.Header = append(c.Header, H("X-Hop", "hop$S;"))
+			}
+		}
 		rq.Cond = c
 		sc.Steps = append(sc.Steps, ReqStep(rq))
 	}
